@@ -603,9 +603,18 @@ partial def anteLoop (stdin : IO.FS.Stream) (a : AState) : IO Unit := do
     else if l.startsWith "setprices " then
       -- governance sets the settlement gas prices: "denom:price,denom:price"; the list is stored as given, and the first configured
       -- denomination is the first one listed
-      let ps := (((l.drop 10).toString.splitOn ",").filter (· != "")).map (fun p =>
+      let raw := (((l.drop 10).trimAscii.toString.splitOn ",").filter (fun x => x != "" && x != "-")).map (fun p =>
         let kv := p.splitOn ":"
-        ((kv.getD 0 "").toList, (decTok (kv.getD 1 "0")).toNat))
+        let d := kv.getD 0 ""
+        ((if d.startsWith "=" then (d.drop 1).toString else d).toList, decTok (kv.getD 1 "0")))
+      if !pricesValid raw then
+        -- the parameter's validator refuses the proposal: nothing changes
+        IO.println "< err"
+        for d in dumpAnte a do
+          IO.println ("| " ++ d)
+        anteLoop stdin a
+      else
+      let ps := raw.map (fun p => (p.1, p.2.toNat))
       -- an empty list ("-") is stored as such; whoever reads the parameters then gets the default prices in its place - and the
       -- other parameters as they are stored
       let a' : AState := { a with prices := if ps.isEmpty || l.trimAscii.toString == "setprices -" then Facts.defaultGasPrices else ps }
